@@ -219,6 +219,32 @@ def rule_char_decoder(facts, rid):
             t4.violate(f"range/{kind}", f"slicing a text string positions with {helpers}, none of which decodes characters", where=arm["sp"])
         if not want and ds:
             t4.violate(f"range/{kind}", f"slicing a byte string positions with a character decoder ({helpers})", where=arm["sp"])
+    # a decoded character says nothing about how many bytes it stood for (an invalid byte decodes to U+FFFD, 3 bytes wide): byte offsets
+    # come from the decoder (`char_indices`, the size returned by `decode_utf8`), never from the widths of the decoded characters
+    groups = {}
+    for crate in ("jaq_json", "jaq_std"):
+        for mb in facts.mir(crate):
+            if mb.get("test"):
+                continue
+            g_ = groups.setdefault((crate, mb["def"].split("::{closure")[0]), {"dec": [], "width": []})
+            for bb_ in mb["bbs"]:
+                t_ = bb_["t"]
+                if t_["k"] != "Call":
+                    continue
+                names = [t_.get("fn") or "", t_.get("res") or ""] + [((a_.get("k") or {}).get("fn") or "") for a_ in t_.get("args", []) if isinstance(a_, dict) and isinstance(a_.get("k"), dict)]
+                for nm in names:
+                    if DEC.match(nm):
+                        g_["dec"].append(nm)
+                    if re.search(r"core::char::methods::<impl char>::len_utf8$", nm):
+                        g_["width"].append(t_["sp"])
+    nd = 0
+    for (crate, fn_), g_ in sorted(groups.items()):
+        if not g_["dec"]:
+            continue
+        nd += 1
+        t4.examined(("decoded-width", fn_), True, {"fn": fn_, "decodes_with": sorted(set(g_["dec"])), "uses_width_of_decoded_chars": bool(g_["width"])})
+        if g_["width"]:
+            t4.violate(f"decoded-width/{fn_}", f"`{fn_}` decodes a string lossily and computes byte offsets from `char::len_utf8` of the decoded characters: wrong for every invalid byte (U+FFFD is 3 bytes wide, the byte it replaces 1)", where=g_["width"][0])
     return t4
 
 def run(facts, tier):
